@@ -28,13 +28,21 @@ func NewCSVWriter(writer *csv.Writer) func(ro.Observable[[]string]) ro.Observabl
 	return func(source ro.Observable[[]string]) ro.Observable[int] {
 		return ro.NewUnsafeObservableWithContext(func(subscriberCtx context.Context, destination ro.Observer[int]) ro.Teardown {
 			count := 0
+			failed := false
 
 			sub := source.SubscribeWithContext(
 				subscriberCtx,
 				ro.NewObserverWithContext(
 					func(ctx context.Context, row []string) {
+						if failed {
+							// The error has been reported: a source that cannot be stopped at once
+							// (a synchronous one) must not write past the failure.
+							return
+						}
+
 						err := writer.Write(row)
 						if err != nil {
+							failed = true
 							writer.Flush()
 							destination.NextWithContext(ctx, count)
 							destination.ErrorWithContext(ctx, err)
@@ -50,6 +58,13 @@ func NewCSVWriter(writer *csv.Writer) func(ro.Observable[[]string]) ro.Observabl
 					func(ctx context.Context) {
 						writer.Flush()
 						destination.NextWithContext(ctx, count)
+
+						// csv.Writer buffers: an error of the underlying writer is only reported by Error() after Flush().
+						if err := writer.Error(); err != nil {
+							destination.ErrorWithContext(ctx, err)
+							return
+						}
+
 						destination.CompleteWithContext(ctx)
 					},
 				),
